@@ -229,6 +229,12 @@ func subCodec(out string, seed uint64, tier string, arg string) {
 			if err == nil {
 				want = append(want, fmt.Sprintf("%s|%s|%s|%s", r.n, r.d, r.c, r.s))
 			}
+			// a listing may be requested between registrations: whatever it caches must not go stale
+			var scratch bytes.Buffer
+			reg.WriteJSON(&scratch)
+			if n := strings.Count(scratch.String(), "\n"); n != len(want) {
+				rep.violate(Violation{"C14", fmt.Sprintf("after registering %d lints (last: %s lint %s) the listing has %d lines", len(want), kind, r.n, n), "listing-stale", map[string]interface{}{"registered": want, "listing": scratch.String()}})
+			}
 		}
 		add("cert", row{"e_shared_name", "the certificate lint", "cite-cert", "RFC5280"})
 		add("crl", row{"e_shared_name", "the CRL lint", "cite-crl", "CABF_BR"})
@@ -236,6 +242,8 @@ func subCodec(out string, seed uint64, tier string, arg string) {
 		add("cert", row{"w_only_cert", "c", "x", "Community"})
 		add("crl", row{"e_only_crl", "r", "y", "RFC5280"})
 		add("ocsp", row{"n_only_ocsp", "o", "z", "RFC6960"})
+		add("crl", row{"e_late_crl", "r2", "y2", "RFC5280"})
+		add("ocsp", row{"e_late_ocsp", "o2", "z2", "RFC6960"})
 		var buf bytes.Buffer
 		reg.WriteJSON(&buf)
 		var got []string
